@@ -502,59 +502,15 @@ def run(ctx):
     ctx.floor("R4", nblock, 1, "block-wise matrix readers")
 
     # ------------------------------------------------------------------ R5
-    ctx.rule("R5", "index-permutation literals are permutations and pair up between reader and writer", "multipole components come back permuted")
-    nperm = 0
-    for short in ("fchk", "qchemlog"):
-        mod = prog.modules.get(f"iodata.formats.{short}")
-        if mod is None:
-            continue
-        perms = {"load": [], "dump": []}
-        for f in mod.funcs:
-            side = "dump" if f.name.startswith("dump") or f.name.startswith("_dump") else "load"
-            for n in f.own_nodes():
-                if isinstance(n, ast.Subscript) and isinstance(n.slice, ast.List) and n.slice.elts and all(isinstance(e, ast.Constant) and isinstance(e.value, int) for e in n.slice.elts):
-                    p = [e.value for e in n.slice.elts]
-                    nperm += 1
-                    if sorted(p) == list(range(len(p))):
-                        perms[side].append((p, n, f))
-                        ctx.ok("R5", f"{short}: {p} is a permutation of 0..{len(p) - 1}", f"{mod.relpath}:{n.lineno}")
-                    else:
-                        ctx.violate("R5", f"{short}: index list {p} is not a permutation (a component is duplicated / dropped)", f, n)
-        for p, n, f in perms["load"]:
-            inv = [p.index(i) for i in range(len(p))]
-            if perms["dump"]:
-                if any(q == inv for q, _, _ in perms["dump"] if len(q) == len(p)):
-                    ctx.ok("R5", f"{short}: reader permutation {p} and writer permutation {inv} are mutually inverse", f"{mod.relpath}:{n.lineno}")
-                else:
-                    ctx.violate("R5", f"{short}: reader applies {p}; the writer's permutation(s) {[q for q, _, _ in perms['dump']]} are not its inverse {inv}", f, n)
-        # component order against IOData.moments (alphabetical xx xy xz yy yz zz)
-        order = {"fchk": ["xx", "yy", "zz", "xy", "xz", "yz"], "qchemlog": ["xx", "xy", "yy", "xz", "yz", "zz"]}[short]
-        for p, n, f in perms["load"]:
-            if len(p) == 6:
-                got = [order[i] for i in p]
-                if got == ["xx", "xy", "xz", "yy", "yz", "zz"]:
-                    ctx.ok("R5", f"{short}: file order {order} -> alphabetical quadrupole components", f"{mod.relpath}:{n.lineno}")
-                else:
-                    ctx.violate("R5", f"{short}: quadrupole components in file order {order} are re-ordered to {got}, IOData.moments is alphabetical (xx xy xz yy yz zz)", f, n)
-    ctx.floor("R5", nperm, 3, "index-permutation literals")
+    ctx.rule("R5", "quadrupole components of the file are stored in the object's order xx xy xz yy yz zz (reader statements evaluated)", "multipole components come back permuted")
+    # the statement that stores moments[(2, 'c')] is evaluated on a file-ordered array with six different entries
+    # (no frozen literal: the permutation may be written in place, kept in a module constant or computed)
+    for short, file_order in (("fchk", ["xx", "yy", "zz", "xy", "xz", "yz"]), ("qchemlog", ["xx", "xy", "yy", "xz", "yz", "zz"])):
+        check_quadrupole_reader(ctx, "R5", short, file_order)
 
     # ------------------------------------------------------------------ R6
     ctx.rule("R6", "labelled per-atom records are attached by label", "gradient rows listed in another order than the nuclei land on the wrong atoms")
-    wfx = prog.modules.get("iodata.formats.wfx")
-    done = False
-    if wfx is not None:
-        for f in wfx.funcs:
-            for n in f.own_nodes():
-                if isinstance(n, ast.Assign) and isinstance(n.targets[0], ast.Subscript) and "atgradient" in src_of(n.targets[0].value):
-                    idx = deref(f, n.targets[0].slice)
-                    txt = src_of(idx)
-                    done = True
-                    if ".index(" in txt and isinstance(idx, (ast.ListComp, ast.GeneratorExp, ast.Call)):
-                        ctx.ok("R6", f"wfx: gradient rows are placed at `{txt[:60]}` (lookup of each row's nucleus label)", f"{f.module.relpath}:{n.lineno}")
-                    else:
-                        ctx.violate("R6", f"wfx: gradient rows are stored at `{txt[:60]}` instead of the position of their nucleus label in <Nuclear Names>", f, n)
-    if not done:
-        ctx.violate("R6", "wfx: cannot find the store of the labelled gradient rows", relpath="iodata/formats/wfx.py", function="iodata.formats.wfx", construct="wfx gradient store")
+    check_wfx_gradient_rows(ctx, "R6")
 
     # ------------------------------------------------------------------ R1 (offset dataflow)
     from .offsets import check_reader_offsets
@@ -1304,3 +1260,152 @@ def check_wfn_build_obasis(ctx, rid):
         ctx.violate(rid, f"WFN primitive regrouping, {bad}", f, f.node, construct=f"build_obasis: {bad}"[:170])
     else:
         ctx.ok(rid, f"WFN / WFX primitive lists: {len(cases)} model lists are regrouped into the right shells with the right row permutation", f"{f.module.relpath}:{f.lineno}")
+
+
+def check_wfx_gradient_rows(ctx, rid):
+    """`<Nuclear Cartesian Energy Gradients>`: every row starts with the name of its nucleus.  The block of the WFX
+    reader that turns the section into `atgradient` is evaluated on a model section that lists the nuclei in another
+    order than `<Nuclear Names>`; each row must land on the atom it names."""
+    from ..accessors import AccessorEval, Raised
+    from ..symarr import NotSymbolic
+
+    prog = ctx.prog
+    f = prog.funcs.get("iodata.formats.wfx.load_data_wfx")
+    if f is None:
+        raise AnalysisError("wfx.load_data_wfx not found")
+    stmt = None
+    for st in f.body:
+        if isinstance(st, ast.If) and any(isinstance(x, ast.Constant) and x.value == "nuclear_gradient" for x in ast.walk(st.test)):
+            stmt = st
+    if stmt is None:
+        raise AnalysisError("wfx.load_data_wfx: the block that processes the gradient section was not found")
+    resname = next((x.id for x in ast.walk(stmt.test) if isinstance(x, ast.Name)), None)
+    names = ["O1", "H2", "H3"]
+    want = {"O1": [1.0, 2.0, 3.0], "H2": [4.0, 5.0, 6.0], "H3": [7.0, 8.0, 9.0]}
+    for order in (["H3", "O1", "H2"], ["O1", "H2", "H3"]):
+        res = {"nuclear_names": list(names), "nuclear_gradient": [f"{nm} {want[nm][0]:.14E} {want[nm][1]:.14E} {want[nm][2]:.14E}" for nm in order]}
+        ev = AccessorEval(prog, None, limit=4000)
+        ev.module = f.module
+        try:
+            ev._block([stmt], {resname: res})
+        except Raised as exc:
+            ctx.violate(rid, f"WFX gradient section listing the nuclei as {order}: the reader raises {exc.args[0]}", f, stmt, construct="wfx gradient rows: raises")
+            return
+        except NotSymbolic as exc:
+            raise AnalysisError(f"the WFX gradient block is outside the evaluation whitelist: {exc}") from exc
+        got = res.get("atgradient")
+        if not isinstance(got, np.ndarray) or got.shape != (3, 3):
+            ctx.violate(rid, "WFX gradient section: no (natom, 3) array is stored", f, stmt, construct="wfx gradient rows: shape")
+            return
+        for i, nm in enumerate(names):
+            if not np.allclose(np.asarray(got[i], dtype=float), want[nm]):
+                ctx.violate(rid, f"WFX gradient section listing the nuclei as {order} (names {names}): atom {nm} receives the row {np.asarray(got[i], dtype=float).tolist()}, the row labelled {nm} is {want[nm]}", f, stmt, construct="wfx gradient rows: attached to another atom")
+                return
+    ctx.ok(rid, "wfx: gradient rows are assigned by the nucleus name that starts each row (sections in file order and in permuted order)", f"{f.module.relpath}:{stmt.lineno}")
+
+
+def check_quadrupole_reader(ctx, rid, short, file_order):
+    """The statement `<moments>[(2, 'c')] = ...` of a reader, evaluated with the parsed section bound to an array that
+    holds six different numbers in the file's documented component order."""
+    from ..accessors import AccessorEval, Raised
+    from ..symarr import NotSymbolic
+
+    prog = ctx.prog
+    comp = {"xx": 1.0, "xy": 2.0, "xz": 3.0, "yy": 4.0, "yz": 5.0, "zz": 6.0}
+    obj_order = ["xx", "xy", "xz", "yy", "yz", "zz"]
+    mod = prog.modules.get(f"iodata.formats.{short}")
+    sites = []
+    for f in (mod.funcs if mod is not None else []):
+        for x in f.own_nodes():
+            if isinstance(x, ast.Assign) and isinstance(x.targets[0], ast.Subscript) and isinstance(x.targets[0].value, ast.Name) and isinstance(x.targets[0].slice, ast.Tuple) and [getattr(e, "value", None) for e in x.targets[0].slice.elts] == [2, "c"]:
+                sites.append((f, x))
+    if not sites:
+        raise AnalysisError(f"{short}: no statement stores moments[(2, 'c')] any more")
+    for f, x in sites:
+        srcs = [(c.value.id, c.slice.value) for c in ast.walk(x.value) if isinstance(c, ast.Subscript) and isinstance(c.value, ast.Name) and isinstance(c.slice, ast.Constant) and isinstance(c.slice.value, str)]
+        if len(srcs) != 1:
+            raise AnalysisError(f"{short}: the source section of the quadrupole cannot be identified in `{src_of(x)[:80]}`")
+        local = {x.targets[0].value.id: {}, srcs[0][0]: {srcs[0][1]: np.array([comp[c] for c in file_order])}}
+        ev = AccessorEval(prog, None, limit=2000)
+        ev.module = f.module
+        try:
+            ev._block([x], local)
+        except Raised as exc:
+            ctx.violate(rid, f"{short}: the quadrupole statement raises {exc.args[0]}", f, x, construct=f"{short} quadrupole order: raises")
+            continue
+        except NotSymbolic as exc:
+            raise AnalysisError(f"{short}: the quadrupole statement is outside the evaluation whitelist: {exc}") from exc
+        got = local[x.targets[0].value.id].get((2, "c"))
+        inv = {v: k for k, v in comp.items()}
+        if got is None or [float(v) for v in np.asarray(got).ravel()] != [comp[c] for c in obj_order]:
+            ctx.violate(rid, f"{short}: the file lists the quadrupole as {' '.join(c.upper() for c in file_order)}; the loaded moments[(2, 'c')] holds the components {[inv.get(float(v), '?') for v in np.asarray(got).ravel()] if got is not None else None} where IOData documents {obj_order}", f, x, construct=f"{short} quadrupole order: reader")
+        else:
+            ctx.ok(rid, f"{short}: {' '.join(c.upper() for c in file_order)} of the file becomes xx xy xz yy yz zz", f"{f.module.relpath}:{x.lineno}")
+
+
+def check_fchk_moment_order(ctx, rid, sides=("reader", "writer")):
+    """FCHK lists the quadrupole as XX YY ZZ XY XZ YZ, IOData stores xx xy xz yy yz zz.  The reader statement that
+    stores `moments[(2, 'c')]` and the writer statement that hands 'Quadrupole Moment' to `_dump_real_arrays` are
+    evaluated on arrays with six different entries and compared with the order each side documents."""
+    from ..accessors import AccessorEval, Raised, Rec
+    from ..symarr import NotSymbolic
+
+    prog = ctx.prog
+    comp = {"xx": 1.0, "xy": 2.0, "xz": 3.0, "yy": 4.0, "yz": 5.0, "zz": 6.0}
+    file_order = ["xx", "yy", "zz", "xy", "xz", "yz"]
+    obj_order = ["xx", "xy", "xz", "yy", "yz", "zz"]
+    lo = prog.format_op("fchk", "load_one")
+    do = prog.format_op("fchk", "dump_one")
+    try:
+        if "reader" in sides:
+            st = None
+            for x in lo.own_nodes():
+                if isinstance(x, ast.If) and any(isinstance(c, ast.Constant) and c.value == "Quadrupole Moment" for c in ast.walk(x.test)):
+                    st = x
+            if st is None:
+                raise AnalysisError("fchk.load_one: the block that reads 'Quadrupole Moment' was not found")
+            tgt = [a for a in ast.walk(st) if isinstance(a, ast.Assign) and isinstance(a.targets[0], ast.Subscript) and isinstance(a.targets[0].value, ast.Name)]
+            if not tgt:
+                raise AnalysisError("fchk.load_one: no store of the quadrupole found")
+            dname = tgt[0].targets[0].value.id
+            src = next(c.id for c in ast.walk(st.test) if isinstance(c, ast.Name))
+            local = {dname: {}, src: {"Quadrupole Moment": np.array([comp[c] for c in file_order]), "Dipole Moment": np.array([0.1, 0.2, 0.3])}}
+            ev = AccessorEval(prog, None, limit=2000)
+            ev.module = lo.module
+            ev._block([st], local)
+            got = local[dname].get((2, "c"))
+            if got is None or [float(v) for v in np.asarray(got).ravel()] != [comp[c] for c in obj_order]:
+                inv = {v: k for k, v in comp.items()}
+                ctx.violate(rid, f"fchk.load_one: the file lists the quadrupole as {' '.join(c.upper() for c in file_order)}; the loaded moments[(2, 'c')] has the components {[inv.get(float(v), '?') for v in np.asarray(got).ravel()] if got is not None else None} where IOData documents {obj_order}", lo, st, construct="fchk quadrupole order: reader")
+            else:
+                ctx.ok(rid, "fchk.load_one: XX YY ZZ XY XZ YZ of the file becomes xx xy xz yy yz zz", f"{lo.module.relpath}:{st.lineno}")
+        if "writer" in sides:
+            dra = prog.funcs.get("iodata.formats.fchk._dump_real_arrays")
+            st = None
+            for x in do.body:
+                if any(isinstance(c, ast.Call) and c.args and isinstance(c.args[0], ast.Constant) and c.args[0].value == "Quadrupole Moment" for c in ast.walk(x)):
+                    st = x
+            if st is None or dra is None:
+                raise AnalysisError("fchk.dump_one: the statement that writes 'Quadrupole Moment' was not found")
+            iocls = prog.cls("iodata.iodata.IOData")
+            f0 = {name: None for name in iocls.fields}
+            f0.update(extra={}, atcharges={}, moments={(2, "c"): np.array([comp[c] for c in obj_order])})
+            got = {}
+
+            def capture(args, kw, got=got):
+                got[args[0]] = np.asarray(args[1], dtype=float)
+
+            ev = AccessorEval(prog, iocls, limit=2000)
+            ev.module = do.module
+            ev.stubs = {dra.qualname: capture}
+            ev._block([st], {do.posparams[0]: None, do.posparams[1]: Rec(iocls, **f0)})
+            flat = got.get("Quadrupole Moment")
+            if flat is None or [float(v) for v in flat.ravel()] != [comp[c] for c in file_order]:
+                inv = {v: k for k, v in comp.items()}
+                ctx.violate(rid, f"fchk.dump_one writes the quadrupole components as {[inv.get(float(v), '?').upper() for v in flat.ravel()] if flat is not None else None}; the format lists them as {' '.join(c.upper() for c in file_order)}", do, st, construct="fchk quadrupole order: writer")
+            else:
+                ctx.ok(rid, "fchk.dump_one: xx xy xz yy yz zz of the object is written as XX YY ZZ XY XZ YZ", f"{do.module.relpath}:{st.lineno}")
+    except Raised as exc:
+        ctx.violate(rid, f"FCHK quadrupole statements raise {exc.args[0]}", lo, lo.node, construct="fchk quadrupole order: raises")
+    except NotSymbolic as exc:
+        raise AnalysisError(f"FCHK quadrupole statements are outside the evaluation whitelist: {exc}") from exc
